@@ -1,5 +1,6 @@
-"""C14 - csv_to_merchants_content writes exactly one rule block per CSV row, in file order, nothing skipped, merged or reordered
-(loop invariant over a ghost fold of blocks; the block of a row is the documented layout: [merchant], match:, category:, subcategory:, optional tags:, blank)."""
+"""C14 - csv_to_merchants_content writes exactly one rule block per CSV row that classifies anything, in file order, nothing else skipped, merged or
+reordered (loop invariant over a ghost fold of blocks; the block of a row is the documented layout: [merchant], match:, category:, subcategory:, optional
+tags:, blank).  A row with neither category nor tags - which never classified anything under the CSV rules - is written as one comment line."""
 import ast
 
 import z3
@@ -17,6 +18,7 @@ RegexCall = UF('_regex_call', StrS, StrS)
 ModExpr = UF('_modifier_to_expr', ObjS, StrS)
 truthy = UF('truthy', ObjS, BoolS)
 Join = UF('str.join', StrS, SS, StrS)
+strip = UF('str.strip', StrS, StrS)
 
 
 def unit(s):
@@ -30,10 +32,15 @@ def block(cols, k):
     use_mod = z3.And(z3.Length(mod) > 0, z3.Not(z3.PrefixOf(sv('#'), mod)))
     rc = RegexCall(pattern)
     match = z3.If(z3.And(has_p, use_mod), z3.Concat(rc, sv(' and '), mod), z3.If(has_p, rc, z3.If(use_mod, mod, sv('true'))))
-    head = z3.Concat(unit(z3.Concat(sv('['), merchant, sv(']'))), unit(z3.Concat(sv('match: '), match)), unit(z3.Concat(sv('category: '), category)),
+    # a rule needs a name: a row without merchant name is named after its pattern
+    name = z3.If(z3.Length(strip(merchant)) == 0, pattern, merchant)
+    head = z3.Concat(unit(z3.Concat(sv('['), name, sv(']'))), unit(z3.Concat(sv('match: '), match)), unit(z3.Concat(sv('category: '), category)),
                      unit(z3.Concat(sv('subcategory: '), subcategory)))
     tagline = z3.If(z3.Length(tags) > 0, unit(z3.Concat(sv('tags: '), Join(sv(', '), tags))), z3.Empty(SS))
-    return z3.Concat(head, tagline, unit(sv('')))
+    # a row without category and without tags classifies nothing (and the .rules reader rejects such a rule, and with it the whole file): it is written
+    # as a comment line, never as a rule block
+    noop = z3.And(z3.Length(strip(category)) == 0, z3.Length(tags) == 0)
+    return z3.If(noop, z3.Concat(unit(z3.Concat(sv('# Skipped (no category or tags): '), pattern)), unit(sv(''))), z3.Concat(head, tagline, unit(sv(''))))
 
 
 def h_blocks(ctx):
@@ -47,6 +54,7 @@ def h_blocks(ctx):
     n = z3.Length(cols[0])
     for c in cols[1:]:
         ctx.assume(z3.Length(c) == n)
+    ctx.assume(strip(sv('')) == sv(''))          # definitional fact of str.strip (the code strips a concrete '' where the spec strips the row's cell)
     rules = SymSeq(cols, 7, [None, None, None, None, 'ParsedPattern', None, None])
     sp.models['_regex_call'] = Func(lambda I_, a, k, nd: RegexCall(to_z3(a[0], StrS)))
     sp.models['_modifier_to_expr'] = Func(lambda I_, a, k, nd: ModExpr(to_z3(a[0])))
